@@ -104,6 +104,12 @@ def pair_for(cell):
     # what the operator of the provider configured it to support (the defaults advertise `code` only and no encryption)
     extra = {"response_types_supported": DIMS["rt"], "scopes_supported": ["openid", "profile", "email", "address", "phone", "offline_access"],
              "encrypt_id_token_supported": True, "encrypt_userinfo_supported": True}
+    # lifetimes in the usage rules differ from the token handlers' own (3600 / 86400): every view of the expiry must follow the same one
+    from idpyoidc.server.authz import AuthzHandling
+    extra["authz"] = {"class": AuthzHandling, "kwargs": {"grant_config": {"usage_rules": {
+        "authorization_code": {"supports_minting": ["access_token", "refresh_token", "id_token"], "max_usage": 1, "expires_in": 120},
+        "access_token": {"expires_in": 600},
+        "refresh_token": {"supports_minting": ["access_token", "refresh_token", "id_token"], "expires_in": 7200}}, "expires_in": 43200}}}
     if cell["pkce"]:
         extra["add_on"] = {"pkce": {"function": "idpyoidc.server.oauth2.add_on.pkce.add_support", "kwargs": {"essential": False}}}
 
